@@ -1,6 +1,6 @@
 #!/usr/bin/env python3
 """Entry point of every MANIFEST command:  tools/check.py <ID> [--tier quick|thorough] [--replay F]"""
-import argparse, importlib, os, sys, traceback
+import argparse, importlib, json, os, sys, traceback
 
 HERE = os.path.dirname(os.path.abspath(__file__))
 sys.path.insert(0, HERE)
@@ -19,21 +19,53 @@ def main():
         seed = int(os.environ.get("VERIF_SEED", "1"))
     except ValueError:
         seed = 1
-    ctx = vlib.Ctx(a.pid, tier, seed)
+    def one_run():
+        c = vlib.Ctx(a.pid, tier, seed)
+        try:
+            if a.replay:
+                mod.replay(c, a.replay)
+            else:
+                mod.check(c)
+        except vlib.BuildError as e:
+            # the implementation / harness / model no longer builds: property no longer shown
+            c.violation("build failure: %s" % str(e)[:300], features={"kind": "build"},
+                        replay_text=str(e), no_input=True)
+        except Exception as e:
+            c.violation("check crashed: %r" % e, features={"kind": "internal"},
+                        replay_text=traceback.format_exc(), no_input=True)
+        return c
+
     mod = importlib.import_module(a.pid)
     level = getattr(mod, "LEVEL", "proof")
-    try:
-        if a.replay:
-            mod.replay(ctx, a.replay)
+    ctx = one_run()
+    # Confirm before alarm: harnesses that involve real time (threads, watchdogs, sockets) can produce a
+    # one-off observation on a loaded machine.  A violation is reported only if it shows again in at least
+    # one of two fresh re-runs with the same seed; deterministic violations reproduce every time.
+    if ctx.violations and not a.replay and os.environ.get("VERIF_NO_CONFIRM") != "1":
+        def key(v):
+            return (v.get("no_input"), json.dumps(v.get("features", {}), sort_keys=True), str(v.get("what", ""))[:40])
+        first = ctx.violations
+        seen_again = set()
+        last = None
+        for _ in range(2):
+            c2 = one_run()
+            last = c2
+            for v in c2.violations:
+                seen_again.add(key(v))
+            if all(key(v) in seen_again for v in first):
+                break
+        confirmed = [v for v in first if key(v) in seen_again]
+        dropped = [v for v in first if key(v) not in seen_again]
+        if last is not None and not confirmed:
+            ctx = last               # evidence of the clean re-run
+            ctx.violations = []
         else:
-            mod.check(ctx)
-    except vlib.BuildError as e:
-        # the implementation / harness / model no longer builds: property no longer shown
-        ctx.violation("build failure: %s" % str(e)[:300], features={"kind": "build"},
-                      replay_text=str(e), no_input=True)
-    except Exception as e:
-        ctx.violation("check crashed: %r" % e, features={"kind": "internal"},
-                      replay_text=traceback.format_exc(), no_input=True)
+            ctx.violations = confirmed
+        if dropped:
+            ctx.coverage["unconfirmed_observations"] = [
+                {"what": str(v.get("what"))[:300], "features": v.get("features")} for v in dropped][:10]
+            for v in dropped:
+                print("UNCONFIRMED (not reproduced in re-runs, not reported): %s" % " ".join(str(v.get("what")).split())[:200])
     if not ctx.coverage.get("obligations"):
         ctx.coverage.setdefault("obligations", 1)
         ctx.coverage.setdefault("discharged", 0)
